@@ -71,6 +71,8 @@ fn main() {
     let cmd = args[1].as_str();
     let code = match args[2].as_str() {
         "C01" => dispatch::<c01::C01>(cmd, &args),
+        "C02" => dispatch::<access::C02>(cmd, &args),
+        "C03" => dispatch::<access::C03>(cmd, &args),
         "C04" => dispatch::<grid::C04>(cmd, &args),
         "C05" => dispatch::<c01::C05>(cmd, &args),
         "C06" => dispatch::<structural::C06>(cmd, &args),
